@@ -64,6 +64,15 @@ func (e *emitter) flagList(fs []string) string {
 	return nlist(xs)
 }
 
+// setList: tokens of a mailbox flag / attribute set (same token space as message flags; nothing dropped)
+func (e *emitter) setList(fs []string) string {
+	var xs []int
+	for _, f := range normSet(fs) {
+		xs = append(xs, e.flag(f))
+	}
+	return nlist(xs)
+}
+
 func (e *emitter) mbList(rids []string) string {
 	var xs []int
 	for _, r := range rids {
@@ -87,7 +96,7 @@ func (e *emitter) state(s *dbSnap, litOf map[string]string, nextMb uint64) strin
 		}
 	}
 	for _, m := range s.Mb {
-		mb = append(mb, fmt.Sprintf("mkMb %d %d %d %d %s", m.IID, e.brid(m.RID), e.name(m.Name), m.UIDV, coqBool(m.Sub)))
+		mb = append(mb, fmt.Sprintf("mkMb %d %d %d %d %s %s %s %s", m.IID, e.brid(m.RID), e.name(m.Name), m.UIDV, coqBool(m.Sub), e.setList(m.Flags), e.setList(m.Perm), e.setList(m.Attrs)))
 		seq = append(seq, fmt.Sprintf("(%d, %d)", m.IID, m.Next-1))
 		for _, r := range m.Rows {
 			me = append(me, fmt.Sprintf("mkMe %d %d %d %d", m.IID, r.UID, e.mid(r.Msg), e.mrid(r.RIDCol)))
@@ -127,7 +136,8 @@ func (e *emitter) update(u *upd, before *dbSnap) string {
 	case "UIDValidityBumped":
 		return "UUIDValidityBumped"
 	case "MailboxCreated":
-		return fmt.Sprintf("(UMailboxCreated %d %d)", e.brid(u.MboxRID), e.name(u.Name))
+		u.defaults()
+		return fmt.Sprintf("(UMailboxCreated %d %d %s %s %s)", e.brid(u.MboxRID), e.name(u.Name), e.setList(u.MbFlags), e.setList(u.MbPerm), e.setList(u.MbAttrs))
 	case "MailboxDeleted":
 		return fmt.Sprintf("(UMailboxDeleted %d)", e.brid(u.MboxRID))
 	case "MailboxUpdated":
